@@ -30,7 +30,7 @@ PROPS = {
         "timeout": {"quick": 300, "thorough": 3000},
     },
     "C02": {
-        "suites": ["c02", "c02race", "c02stale"],
+        "suites": ["c02", "c02race", "c02stale", "scope-c05"],
         "assumptions": COMMON_ASSUME + [
             "one updating goroutine per gauge (the property's quantifier); reading the value and calling the reporter are separate steps of the model (the recording reporter's entry is a schedule point of the correspondence check); sync.Mutex gives mutual exclusion between the visits of one gauge (repair D13)",
         ],
@@ -66,7 +66,7 @@ PROPS = {
             "float64 -> int64 conversion is exact truncation for results that fit; ExponentialDurationBuckets is compared only on arguments whose element-producing products stay within +-2^62 (outside the int64 range Go leaves the conversion implementation-defined)",
             "sort.Sort returns a permutation sorted by Less (merge sort in the executable model; bounds are compared through the numeric key, so -0 = +0)",
             "RWMutex gives mutual exclusion: the read-locked probe and the write-locked build-and-store of bucketCache.Get are atomic steps of the concurrent model",
-            "a bucket slice is not mutated by its owner after it was handed to Histogram() (the cache keeps the caller's slice as the stored spec)",
+            "a bucket slice is not written by its owner WHILE a Histogram() call that received it is running (afterwards it may be reused at will: the cache keeps a private copy since repair D16)",
         ],
         "trusted_base": [
             "the identity hash is internal (internal/identity): the model's formula is tied by extracted constants and return expressions and cross-checked against the harness's own rendering, not against the function itself; cache_transparent holds for every identity function",
